@@ -6,7 +6,7 @@ from runner import *  # noqa
 STATIC_BUILDS = [{"name": "rec_static_%d" % p, "sources": ["rec_static.cpp"], "extra_flags": ["-DPART=%d" % p]} for p in range(3)]
 
 
-def pgm_cfg(work, name, U, N, eps, epsrec, sentinel, route, chunks, invariants):
+def pgm_cfg(work, name, U, N, eps, epsrec, sentinel, route, chunks, invariants, minbuild=1, maxstep=1000):
     p = os.path.join(work, name + ".cfg")
     with open(p, "w") as f:
         f.write("""CONSTANTS U = %d
@@ -16,10 +16,12 @@ def pgm_cfg(work, name, U, N, eps, epsrec, sentinel, route, chunks, invariants):
  Sentinel = %d
  RouteMode = "%s"
  NChunks = %d
+ MinBuildLen = %d
+ MaxStep = %d
 SPECIFICATION Spec
 INVARIANTS %s
 CHECK_DEADLOCK FALSE
-""" % (U, N, eps, epsrec, sentinel, route, chunks, " ".join(invariants)))
+""" % (U, N, eps, epsrec, sentinel, route, chunks, minbuild, maxstep, " ".join(invariants)))
     return p
 
 
@@ -81,6 +83,15 @@ class StaticCheck(Check):
                 name = "PGMbig_e%d_r%d_%s" % (eps, er, route)
                 ms.append(ModelRun("PGMIndex.tla", pgm_cfg(work, name, 12, 8, eps, er, 12, route, c, PGM_INV), name, workers=4, timeout=3000, heap="8g",
                                    constants={"U": 12, "N": 8, "Eps": eps, "EpsRec": er, "Sentinel": 12, "RouteMode": route, "NChunks": c}))
+        # simulation: long random arrays (24..30 keys over 0..59) so that the index gets three levels
+        nsim = 400 if tier == "quick" else 6000
+        for er, route in ((1, "linear"), (1, "binary_window")):
+            name = "PGMsim_r%d_%s" % (er, route)
+            ms.append(ModelRun("PGMIndex.tla", pgm_cfg(work, name, 120, 30, 1, er, 120, route, 1, PGM_INV, minbuild=24, maxstep=9), name + " (simulation, arrays of 24..30 keys)",
+                               workers=2, timeout=1500, simulate="num=%d,depth=40" % nsim, exhaustive=False,
+                               constants={"U": 120, "N": 30, "Eps": 1, "EpsRec": er, "RouteMode": route, "MinBuildLen": 24, "MaxStep": 9, "traces": nsim * 2}))
+        ms.append(ModelRun("PGMIndex.tla", pgm_cfg(work, "W_three", 120, 30, 1, 1, 120, "linear", 1, ["WitnessThreeLevels"], minbuild=24, maxstep=9), "witness: an index with three levels (simulation)",
+                           workers=2, timeout=600, simulate="num=3000,depth=40", expect="violation:*"))
         # the arithmetic core of the +2 slack, for all naturals (Apalache / Z3)
         ms.append(ApalacheRun("RangeLemma.tla", "Lemma", "RangeLemma (Apalache): lo <= r <= hi, width <= 2Eps+2, for all naturals"))
         ms.append(ApalacheRun("RangeLemma.tla", "Strict", "RangeLemma (Apalache): r < hi for a present key, for all naturals"))
